@@ -143,6 +143,8 @@ def run(tier):
     # ---- model-level totality: every token has 0 < width and ends inside the text -------------
     t0 = time.time()
     s.push()
+    if tier == 'quick':
+        s.add(lm.t.L <= 8)
     s.add(z3.Or(*[z3.And(lm.tok_at(p), z3.Not(z3.And(lm.tokEnd[p] > p, lm.tokEnd[p] <= lm.t.L))) for p in range(N)]))
     res = s.check()
     if res == z3.sat:
@@ -155,7 +157,7 @@ def run(tier):
     elif res != z3.unsat:
         chk.fail_inconclusive('partition query unknown')
     s.pop()
-    chk.obligation('L1b tokens of the reference loop partition [0,L) for every text', 'E1 lexsmt/z3', 1,
+    chk.obligation('L1b tokens of the reference loop partition [0,L) for every text (L<=8 in quick)', 'E1 lexsmt/z3', 1,
                    1 if res == z3.unsat else 0, time.time() - t0)
 
     # ---- L4: translator validation + direct observation on the corpus ---------------------------
@@ -167,11 +169,15 @@ def run(tier):
     chk.sample(dict(obligation='L4', example=strs[0], tokens=lexsmt.real_tokens_with_rules(tb.lexer, strs[0])))
 
     # ---- L2: the real loop == reference loop, for every stub behaviour (CrossHair) -------------
-    res = chrun.run_jobs([chrun.Job(os.path.join(ROOT, 'vf/ch/lexloop.py'), 'loop', 150 if tier == 'quick' else 400)])
+    hp = os.path.join(ROOT, 'vf/ch/lexloop.py')
+    res = chrun.run_jobs([chrun.Job(hp, 'loop', 150 if tier == 'quick' else 400),
+                          chrun.Job(hp, 'passthru', 100 if tier == 'quick' else 300),
+                          chrun.Job(hp, 'interleave', 100 if tier == 'quick' else 300)])
     chk.functions.append('CrossHair: real Lexer.get_tokens with 2 symbolic stub rules (vf/ch/lexloop.py)')
 
     def classify(r):
-        return 'lexer-loop:differs-from-reference'
+        return {'loop': 'lexer-loop:differs-from-reference', 'passthru': 'lexer-input:str-not-passed-unchanged',
+                'interleave': 'lexer-loop:state-shared-between-streams'}[r['func']]
     chrun.settle(chk, res, classify=classify)
     chk.sample(dict(obligation='L2', harness='vf/ch/lexloop.py:loop', bound='text length <= 4, 8 stub calls each answering no-match / width 1 / width 2'))
     chk.assumptions += [
